@@ -159,7 +159,7 @@ impl DeltaReceiver {
         let num_parts;
         {
             let current: &mut CurrentDelta = self.current.as_mut().unwrap();
-            if snap.delta_tick != current.delta_tick
+            if snap.tick.wrapping_sub(snap.delta_tick) != current.delta_tick
                 || snap.num_parts != current.num_parts
                 || snap.crc != current.crc
             {
